@@ -18,7 +18,8 @@ func init() {
 			"(A) every CFG path of each of the five endpoint handlers produces an HTTP answer (http.Error / WriteHeader / Write / delegation with the same writer) and the constant statuses used are within {200,400,408,500}; " +
 			"(U) an unknown session ID (sync.Map Load miss) leads only to 400, a failed send/poll leads to 400, a failed poll forgets the session, close forgets the session before closing it; " +
 			"(L) lifecycle pairing in NewConnection: reader and writer goroutines cancel the connection context on every exit, a third goroutine closes the backend websocket once the context is done, the dial-error path cancels and starts nothing, the reader is the sole sender/closer of serverMessages; Close() makes the writer exit after the close frame. " +
-			"Not decided: that gorilla's WriteMessage returns in bounded time on a dead peer.",
+			"Not decided: that gorilla's WriteMessage returns in bounded time on a dead peer. " +
+			"(S) concurrent opens get distinct session IDs (atomic fetch-and-increment); a poll that already took messages delivers them before a later poll reports the closed session.",
 		Assumptions: []string{"sync.Map, sync.Once and context cancellation behave as documented", "gorilla/websocket Conn.Close unblocks a pending ReadMessage"},
 		Run:         runC12,
 	})
